@@ -158,8 +158,9 @@ class Exec(object):
 
     def _track_model(self, mt):
         bars = [self.world.bars[i] for i in mt.bars]
-        if len(mt.obj.bars) != len(bars) or not all(self.world.bar_consistent(b) for b in bars):
-            return None
+        [self.world.bar_consistent(b) for b in bars]  # observation only (probe)
+        if len(mt.obj.bars) != len(bars):
+            self.probes["library_track_differs_from_what_was_built"] += 1  # never on the unchanged tree; judged by the model
         instr = mt.instr if getattr(mt, "pending_instr", None) is None else ["none"]  # not attached (yet): no instrument
         return {"name": mt.name if mt.name is not None else "Untitled", "named": True, "instr": instr, "bars": [self._bar_model(b) for b in bars]}
 
@@ -196,8 +197,10 @@ class Exec(object):
             return mt.obj, {"kind": what, "tracks": [tm]}
         if what == "comp":
             mc = self.world.pick(self.world.comps, op["ref"])
-            if mc is None or len(mc.obj.tracks) != len(mc.tracks) or not mc.tracks:
+            if mc is None or not mc.tracks:
                 return None, None  # the properties quantify over compositions of 1-4 tracks
+            if len(mc.obj.tracks) != len(mc.tracks):
+                self.probes["library_composition_differs_from_what_was_built"] += 1  # never on the unchanged tree; judged by the model
             tms = [self._track_model(self.world.tracks[i]) for i in mc.tracks]
             if any(t is None for t in tms):
                 return None, None
@@ -728,6 +731,7 @@ def execute(prop, program):
 WHOLE_ALLOW = [[], ["dot"], ["t3"], ["dot", "t3"], ["dot", "ddot", "t3"]]
 ANY_ALLOW = WHOLE_ALLOW + [["t5"], ["t7"], ["dot", "ddot", "t3", "t5", "t7"], ["t5", "t7"]]
 PATHS = ["a.mid", "b.mid", "c.mid"]
+TRANSPOSE_BY = ["2", "3", "b3", "4", "5", "#4", "6", "b7", "7", "1", "#1", "b2"]
 ERRNOS = ["ENOSPC", "EIO", "EACCES"]
 
 
@@ -823,6 +827,16 @@ def _gen_track(rng, ops, cfg, prop, single_key_meter):
             ops.append({"op": "tadd", "track": t_index, "bar": b, "again": True})
         if rng.random() < 0.06:
             ops.append({"op": "setnote", "bar": b, "entry": rng.randrange(8), "pos": rng.randrange(5), "note": world.gen_note(rng, chan, vel_lo=vel_lo)})
+        if rng.random() < 0.05:
+            ops.append({"op": "transpose", "level": rng.choice(["nc", "bar"]), "ref": b, "entry": rng.randrange(8), "interval": rng.choice(TRANSPOSE_BY), "up": rng.random() < 0.6})
+        if rng.random() < 0.03:
+            ops.append({"op": "peek", "what": rng.choice(["bar", "nc"]), "ref": b, "entry": rng.randrange(8), "n": rng.choice([1, 1, 2])})
+        if t_index > 0 and rng.random() < 0.04:
+            ops.append({"op": "tadd", "track": rng.randrange(t_index), "bar": b, "share": True})  # an earlier track doubles this bar
+    if rng.random() < 0.05:
+        ops.append({"op": "transpose", "level": "track", "ref": t_index, "interval": rng.choice(TRANSPOSE_BY), "up": rng.random() < 0.6})
+    if rng.random() < 0.04:
+        ops.append({"op": "peek", "what": "track", "ref": t_index, "n": rng.choice([1, 1, 2])})
     if late:
         ops.append({"op": "setinstr", "track": t_index})
     return t_index
@@ -866,6 +880,15 @@ def generate(rng, prop, tier):
 
     def make_comp(ntracks, single):
         ts = [_gen_track(rng, ops, cfg, prop, single) for _ in range(ntracks)]
+        if ntracks < 4 and rng.random() < 0.06:
+            # a doubling: one more track that holds the very same bars as an earlier one (another name / instrument)
+            src = rng.choice(ts)
+            its = [o["bar"] for o in ops if o["op"] == "tadd" and o["track"] == src and not o.get("share")]
+            ops.append({"op": "track", "instr": rng.choice([["none"], ["plain"], ["midi", "Violin", None]]), "name": rng.choice([None, "double"]), "late": False})
+            t2 = sum(1 for o in ops if o["op"] == "track") - 1
+            for bb in its:
+                ops.append({"op": "tadd", "track": t2, "bar": bb, "share": True})
+            ts.append(t2)
         ops.append({"op": "comp"})
         c = sum(1 for o in ops if o["op"] == "comp") - 1
         for t in ts:
